@@ -22,6 +22,7 @@ type c05tmpl struct {
 	dir    string
 	world  *lnmodel.World
 	coin   cashu.Proof
+	coin2  cashu.Proof // a second, unrelated coin: offered to the quote while the first melt is unresolved
 	quote  string
 	hash   string
 	quote2 string
@@ -41,11 +42,11 @@ func c05Template(r *core.Run, mpp bool) (*c05tmpl, error) {
 	defer env.Close()
 	rng := r.Rng("c05t")
 	act := env.Active()
-	ps, err := env.FundOutputs(client.Outputs(rng, act.Id, []uint64{64}))
+	ps, err := env.FundOutputs(client.Outputs(rng, act.Id, []uint64{64, 64}))
 	if err != nil {
 		return nil, err
 	}
-	t := &c05tmpl{dir: dir, world: world, coin: ps[0], ksId: act.Id}
+	t := &c05tmpl{dir: dir, world: world, coin: ps[0], coin2: ps[1], ksId: act.Id}
 	inv := world.NewExternalInvoice(50_000)
 	var part uint64
 	if mpp {
@@ -451,6 +452,18 @@ func runC05(r *core.Run) {
 			_, merr = env.Melt(t.quote, cashu.Proofs{t.coin})
 			if merr == nil {
 				viol("second-melt-same-quote-accepted:L", "PENDING quote accepted a second melt")
+			}
+			// the same quote offered other, unspent inputs while its payment may still succeed: refused,
+			// and neither the first melt's inputs nor the offered ones change state
+			_, merr = env.Melt(t.quote, cashu.Proofs{t.coin2})
+			p1, q1, _, _ := env.DBState(t.coin.Secret, t.quote)
+			p2, _, _, _ := env.DBState(t.coin2.Secret, t.quote)
+			obs = append(obs, fmt.Sprintf("melt of the PENDING quote with other inputs -> %v; first input %s, quote %s, offered input %s", merr, p1, q1, p2))
+			if merr == nil {
+				viol("second-melt-other-inputs-accepted:L", "a quote whose payment is unresolved accepted a second melt with other inputs")
+			}
+			if p1 != "PENDING" || q1 != "PENDING" || p2 != "UNSPENT" {
+				viol("second-melt-other-inputs-changed-state:L", fmt.Sprintf("after a melt with other inputs was offered to the PENDING quote: first input %s, quote %s, offered input %s (expected PENDING, PENDING, UNSPENT)", p1, q1, p2))
 			}
 		}
 		r.Eval(script, env.Node.StatusLookups(t.hash) > 0 || pay == "success" || pay == "pending")
